@@ -295,7 +295,9 @@ def judge_C07(v):
     run = v.run
     if run.failure is not None and c:
         # the run hangs although a cancellation was issued: some transfer never finishes
-        stuck = [ti for ti, f in run.futures.items() if not f.done()]
+        # (done() may already be true — status cancelled — while done was never announced: result() waits for the event)
+        stuck = [ti for ti, f in run.futures.items()
+                 if not f.done() or not getattr(f._coordinator._done_event, 'flag', True)]
         if stuck:
             out.append(('cancelled-transfer-never-finishes:%s' % c['kind'],
                         v.wit(transfers=stuck, statuses=[run.futures[ti]._coordinator.status for ti in stuck], failure=repr(run.failure)[:200]),
@@ -610,6 +612,12 @@ def judge_C12(v):
 
 
 # --------------------------------------------------------------------------- C18
+def _announced(f):
+    """done as a caller experiences it: result() returns — the status is final *and* done was announced (a transfer
+    whose status is `cancelled` but whose done event was never set still blocks result() for ever)"""
+    return f.done() and getattr(f._coordinator._done_event, 'flag', True)
+
+
 def judge_C18(v):
     out = []
     run = v.run
@@ -622,11 +630,11 @@ def judge_C18(v):
                         'requests/writes/callbacks after shutdown returned: %s'
                         % ([(e['op'], e['phase']) for e in late][:4] + [e['k'] for e in late_ev][:4])))
         for ti, f in run.futures.items():
-            if not f.done():
+            if not _announced(f):
                 out.append(('not-done-at-shutdown', v.wit(ti=ti), 'transfer %d not done when shutdown returned' % ti))
     if ts is not None and run.failure is not None:
         # shutdown returned, and afterwards the run hangs: a transfer was not done at the barrier and never will be
-        stuck = [ti for ti, f in run.futures.items() if not f.done()]
+        stuck = [ti for ti, f in run.futures.items() if not _announced(f)]
         if stuck:
             out.append(('not-done-at-shutdown:never-finishes',
                         v.wit(transfers=stuck, statuses=[run.futures[ti]._coordinator.status for ti in stuck]),
